@@ -1260,11 +1260,43 @@ impl SparqlDatabase {
         }
     }
 
+    /// `@prefix label: <namespace> .` (comment already stripped) as (label, namespace).
+    fn n3_prefix_declaration(line: &str) -> Option<(String, String)> {
+        if !line.starts_with("@prefix") {
+            return None;
+        }
+        let line = line.trim_start_matches("@prefix").trim_end_matches('.');
+        let parts: Vec<&str> = line.split_whitespace().collect();
+        if parts.len() < 2 {
+            return None;
+        }
+        let prefix = parts[0].trim_end_matches(':').to_string();
+        let uri = parts[1]
+            .trim_start_matches('<')
+            .trim_end_matches('>')
+            .to_string();
+        Some((prefix, uri))
+    }
+
     // New parse_n3 function
     pub fn parse_n3(&mut self, n3_data: &str) {
         let lines: Vec<String> = n3_data.lines().map(|l| l.trim().to_string()).collect();
         let chunk_size = 1000;
         let chunks: Vec<Vec<String>> = lines.chunks(chunk_size).map(|c| c.to_vec()).collect();
+
+        // A prefix declaration applies to every line after it, also past a chunk boundary:
+        // each chunk starts from the declarations made in the chunks before it.
+        let mut declared_before: Vec<HashMap<String, String>> = Vec::with_capacity(chunks.len());
+        let mut declared = HashMap::new();
+        for chunk in &chunks {
+            declared_before.push(declared.clone());
+            for raw_line in chunk {
+                let line = raw_line.find('#').map_or(raw_line.as_str(), |at| raw_line[..at].trim());
+                if let Some((prefix, uri)) = Self::n3_prefix_declaration(line) {
+                    declared.insert(prefix, uri);
+                }
+            }
+        }
 
         let partial_results: Vec<(
             Vec<Triple>,
@@ -1272,8 +1304,10 @@ impl SparqlDatabase {
             HashMap<String, String>,
         )> = chunks
             .par_iter()
-            .map(|chunk| {
+            .zip(declared_before)
+            .map(|(chunk, inherited_prefixes)| {
                 let mut local_db = SparqlDatabase::new();
+                local_db.prefixes = inherited_prefixes;
                 let mut statement = String::new();
 
                 for raw_line in chunk {
@@ -1286,14 +1320,7 @@ impl SparqlDatabase {
                         continue;
                     }
                     if line.starts_with("@prefix") {
-                        let line = line.trim_start_matches("@prefix").trim_end_matches('.');
-                        let parts: Vec<&str> = line.split_whitespace().collect();
-                        if parts.len() >= 2 {
-                            let prefix = parts[0].trim_end_matches(':').to_string();
-                            let uri = parts[1]
-                                .trim_start_matches('<')
-                                .trim_end_matches('>')
-                                .to_string();
+                        if let Some((prefix, uri)) = Self::n3_prefix_declaration(line) {
                             local_db.prefixes.insert(prefix, uri);
                         } else {
                             eprintln!("Invalid prefix declaration: {}", line);
